@@ -28,6 +28,9 @@ static long at = -1, count;
 static int partial_sel = -1;	/* >= 0: a crashing send stops after (sel % len) bytes */
 static int report_fd = -1;
 static char last_name[32];
+static void (*hook)(const char *);
+static int in_hook;
+void vcrash_set_hook(void (*fn)(const char *)) { hook = fn; }
 
 void vcrash_arm(long crash_at, int partial, int fd) { armed = 1; at = crash_at; count = 0; partial_sel = partial; report_fd = fd; }
 void vcrash_disarm(void) { armed = 0; }
@@ -42,7 +45,7 @@ static void die(const char *name)
 	}
 	_exit(99);
 }
-#define HIT(name) do { if (armed) { strncpy(last_name, name, sizeof last_name - 1); if (count++ == at) die(name); } } while (0)
+#define HIT(name) do { if (hook && !in_hook) { in_hook = 1; hook(name); in_hook = 0; } if (armed) { strncpy(last_name, name, sizeof last_name - 1); if (count++ == at) die(name); } } while (0)
 
 int __real_socket(int, int, int);
 int __wrap_socket(int a, int b, int c) { HIT("socket"); return __real_socket(a, b, c); }
